@@ -306,6 +306,13 @@ class CallMixin:
             if isinstance(v, VList): return VInt(v.len)
             if isinstance(v, (VCList, VTuple)): return VInt(len(v.items))
             if isinstance(v, VPy): return self.py_len(v, p, line)
+            if isinstance(v, VUnion):
+                out = None
+                for c, x in v.alts:
+                    if isinstance(x, VList): out = x.len if out is None else z3.If(c, x.len, out)
+                    elif isinstance(x, (VCList, VTuple)): out = z3.IntVal(len(x.items)) if out is None else z3.If(c, z3.IntVal(len(x.items)), out)
+                    else: self.vc('no-raise/len-of-%s@%d' % (type(x).__name__, line), p, z3.Not(c), line=line)
+                if out is not None: return VInt(out)
             if isinstance(v, VNone):
                 self.vc('no-raise/len-of-None@%d' % line, p, z3.BoolVal(False), line=line)
             raise Undecided('len of %r' % (v,))
@@ -443,4 +450,4 @@ class CallMixin:
 BUILTINS = {'len', 'str', 'int', 'float', 'max', 'min', 'abs', 'pow', 'isinstance', 'hasattr', 'list', 'range', 'print'}
 SPECFUNS = {'forall', 'exists', 'implies', 'ite', 'old', 'kind', 'value', 'Sum', 'Count', 'iff', 'forall2', 'tok',
             'select', 'has', 'attr', 'store_len', 'nu', 'Tot', 'alloc', 'real', 'SumR', 'opt_is_none', 'opt_val',
-            'elems', 'pelems', 'dupfree', 'appended', 'lemma', 'ModelWF', 'unchanged', 'distinct_refs', 'Row', 'LL', 'PL'}
+            'is_list', 'is_int', 'py_int', 'py_head', 'py_tail', 'py_len', 'elems', 'pelems', 'dupfree', 'appended', 'lemma', 'ModelWF', 'unchanged', 'distinct_refs', 'Row', 'LL', 'PL'}
